@@ -90,6 +90,18 @@ def analyse(sql, dialect, silent=False):
             str(lr)
         return {"kind": "ok", "warnings": [str(x.message)[:200] for x in w]}
     except SQLLineageException as e:
+        # the contract holds for every call, not only the first: the other accessors of the same runner must not escape either
+        # (a failed evaluation is repeated by every accessor, so this multiplies the cost: a deterministic sixth of the failing inputs)
+        import zlib
+
+        again = (("target_tables", lambda: lr.target_tables), ("str", lambda: str(lr)), ("get_column_lineage", lambda: lr.get_column_lineage()))
+        for name, call in again if zlib.crc32(sql.encode("utf-8", "replace")) % 6 == 0 else ():
+            try:
+                call()
+            except SQLLineageException:
+                pass
+            except Exception as e2:  # noqa
+                return {"kind": "escape", "exc": type(e2).__name__, "site": site_of(e2), "msg": f"accessor {name} after {type(e).__name__}: " + str(e2)[:160]}
         return {"kind": "lib", "exc": type(e).__name__}
     except RecursionError as e:
         return {"kind": "escape", "exc": "RecursionError", "site": site_of(e), "msg": ""}
@@ -181,7 +193,8 @@ def _pool():
         tp = [e for e in corpus.tpcds() if len(e["sql"]) < 2500]
         # statements of unsupported types take part in the mutation pool too (their error path formats the statement text)
         unsup = [{"sql": u, "dialect": d, "metadata": None} for u in UNSUPPORTED_CANDIDATES for d in ("ansi", "mysql", "postgres")]
-        _state["pool"] = entries + tp + unsup
+        zoo = [{"sql": z, "dialect": d, "metadata": None} for d, z in ZOO]
+        _state["pool"] = entries + tp + unsup + zoo
         _state["toks"] = [TOK.findall(e["sql"]) for e in _state["pool"]]
         _state["texts"] = {e["sql"] for e in _state["pool"]}
         _state["dialects"] = all_dialects()
@@ -323,6 +336,80 @@ UNSUPPORTED_CANDIDATES = [
     "DROP INDEX idx1", "CREATE SEQUENCE seq1", "EXPLAIN SELECT 1", "CREATE DATABASE db1", "DROP SCHEMA sch1",
     "CREATE ROLE r1", "DROP DATABASE db1", "REVOKE SELECT ON tab1 FROM usr1", "BEGIN", "CREATE USER u1",
 ]
+# dialect-specific statement forms (clauses between the verb and the target, multi-target inserts, upserts, returning / output clauses, load / unload,
+# table functions ...): every one is analysed under EVERY dialect in every run, and all of them take part in the mutation pool
+ZOO = [
+    ("tsql", "INSERT TOP (5) INTO t (a, b) SELECT a, b FROM s"), ("tsql", "INSERT TOP (10) PERCENT INTO dbo.t SELECT a FROM s"),
+    ("tsql", "WITH q AS (SELECT a FROM s) INSERT TOP (1) INTO t SELECT a FROM q"), ("tsql", "INSERT INTO t WITH (TABLOCK) (a, b) SELECT a, b FROM s"),
+    ("tsql", "INSERT INTO t (a) OUTPUT inserted.a INTO audit (a) SELECT a FROM s"), ("tsql", "SELECT a, b INTO #tmp FROM s WITH (NOLOCK)"),
+    ("tsql", "UPDATE t SET a = s.a OUTPUT deleted.a INTO audit FROM t JOIN s ON t.k = s.k"), ("tsql", "SELECT t.a, x.b FROM t CROSS APPLY (SELECT b FROM s WHERE s.k = t.k) x"),
+    ("tsql", "MERGE INTO t USING s ON t.k = s.k WHEN MATCHED THEN UPDATE SET a = s.a WHEN NOT MATCHED BY SOURCE THEN DELETE OUTPUT $action, inserted.a;"),
+    ("tsql", "DELETE TOP (5) FROM t OUTPUT deleted.a INTO audit WHERE a IN (SELECT a FROM s)"), ("tsql", "INSERT INTO t EXEC dbo.proc1 @p = 1"),
+    ("tsql", "SELECT a FROM OPENROWSET(BULK 'x.csv', FORMAT = 'CSV') AS r"), ("tsql", "DECLARE @n INT = 5; INSERT TOP (@n) INTO t SELECT a FROM s"),
+    ("postgres", "INSERT INTO t (a, b) SELECT a, b FROM s ON CONFLICT (a) DO UPDATE SET b = EXCLUDED.b"), ("postgres", "INSERT INTO t SELECT a FROM s RETURNING a"),
+    ("postgres", "WITH moved AS (DELETE FROM s WHERE a < 5 RETURNING *) INSERT INTO t SELECT * FROM moved"), ("postgres", "UPDATE t SET a = s.a FROM s WHERE t.k = s.k RETURNING t.*"),
+    ("postgres", "CREATE TABLE t PARTITION OF p FOR VALUES FROM (1) TO (10)"), ("postgres", "COPY (SELECT a FROM s) TO '/tmp/out.csv' WITH CSV"),
+    ("postgres", "CREATE TABLE t (LIKE s INCLUDING ALL)"), ("postgres", "SELECT a INTO TEMP t FROM s"), ("postgres", "INSERT INTO t TABLE s"),
+    ("postgres", "CREATE MATERIALIZED VIEW mv AS SELECT a FROM s WITH NO DATA"), ("postgres", "REFRESH MATERIALIZED VIEW mv"),
+    ("postgres", "SELECT * FROM s, LATERAL unnest(s.arr) AS u(x)"), ("postgres", "INSERT INTO t SELECT DISTINCT ON (a) a, b FROM s ORDER BY a, b"),
+    ("mysql", "INSERT INTO t (a, b) SELECT a, b FROM s ON DUPLICATE KEY UPDATE b = VALUES(b)"), ("mysql", "REPLACE INTO t SELECT a FROM s"),
+    ("mysql", "INSERT INTO t SET a = 1, b = 2"), ("mysql", "INSERT IGNORE INTO t SELECT a FROM s"), ("mysql", "UPDATE t, s SET t.a = s.a WHERE t.k = s.k"),
+    ("mysql", "DELETE t FROM t JOIN s ON t.k = s.k"), ("mysql", "LOAD DATA INFILE '/tmp/x.csv' INTO TABLE t"), ("mysql", "CREATE TABLE t LIKE s"),
+    ("mysql", "INSERT INTO t SELECT a FROM s PARTITION (p0)"), ("mysql", "SELECT a FROM s INTO OUTFILE '/tmp/o.txt'"),
+    ("snowflake", "INSERT ALL INTO t1 INTO t2 SELECT a FROM s"), ("snowflake", "INSERT OVERWRITE INTO t SELECT a FROM s"),
+    ("snowflake", "INSERT ALL WHEN a > 1 THEN INTO t1 ELSE INTO t2 SELECT a FROM s"), ("snowflake", "COPY INTO @stage1/out FROM (SELECT a FROM s)"),
+    ("snowflake", "CREATE TABLE t CLONE s AT (OFFSET => -60)"), ("snowflake", "CREATE OR REPLACE TABLE t AS SELECT a FROM s SAMPLE (10)"),
+    ("snowflake", "SELECT a FROM s, LATERAL FLATTEN(input => s.arr) f"), ("snowflake", "CREATE TABLE t AS SELECT $1, $2 FROM @stage1 (FILE_FORMAT => 'ff')"),
+    ("snowflake", "MERGE INTO t USING (SELECT a, k FROM s) q ON t.k = q.k WHEN MATCHED AND q.a > 1 THEN DELETE WHEN NOT MATCHED THEN INSERT (k) VALUES (q.k)"),
+    ("snowflake", "CREATE DYNAMIC TABLE t TARGET_LAG = '1 minute' WAREHOUSE = wh AS SELECT a FROM s"), ("snowflake", "SELECT a FROM s QUALIFY row_number() OVER (ORDER BY a) = 1"),
+    ("snowflake", "CREATE STREAM st ON TABLE s"), ("snowflake", "SELECT * FROM TABLE(RESULT_SCAN(LAST_QUERY_ID()))"), ("snowflake", "SELECT * FROM s PIVOT (sum(a) FOR b IN ('x', 'y')) p"),
+    ("bigquery", "CREATE TABLE d.t PARTITION BY dt CLUSTER BY a AS SELECT a, dt FROM d.s"), ("bigquery", "INSERT d.t (a) SELECT a FROM d.s"),
+    ("bigquery", "MERGE d.t USING d.s ON d.t.k = d.s.k WHEN NOT MATCHED BY SOURCE THEN DELETE WHEN NOT MATCHED THEN INSERT ROW"),
+    ("bigquery", "EXPORT DATA OPTIONS (uri = 'gs://b/x*.csv', format = 'CSV') AS SELECT a FROM d.s"), ("bigquery", "SELECT a FROM d.s, UNNEST(arr) AS x"),
+    ("bigquery", "CREATE OR REPLACE TABLE d.t AS SELECT * EXCEPT (b) FROM d.s"), ("bigquery", "SELECT a FROM `p.d.s*` WHERE _TABLE_SUFFIX = '2020'"),
+    ("bigquery", "CREATE TABLE d.t COPY d.s"), ("bigquery", "CREATE SNAPSHOT TABLE d.t CLONE d.s"), ("bigquery", "INSERT INTO d.t SELECT AS STRUCT a, b FROM d.s"),
+    ("bigquery", "DECLARE x INT64 DEFAULT 1; INSERT INTO d.t SELECT a FROM d.s WHERE a = x"), ("bigquery", "SELECT a FROM d.s FOR SYSTEM_TIME AS OF TIMESTAMP_SUB(CURRENT_TIMESTAMP(), INTERVAL 1 HOUR)"),
+    ("sparksql", "INSERT OVERWRITE TABLE t PARTITION (ds = '1') SELECT a FROM s"), ("sparksql", "INSERT INTO t PARTITION (ds) SELECT a, ds FROM s"),
+    ("hive", "FROM s INSERT OVERWRITE TABLE t1 SELECT a WHERE a > 1 INSERT INTO TABLE t2 SELECT b"), ("sparksql", "CACHE TABLE c AS SELECT a FROM s"),
+    ("sparksql", "CREATE TABLE t USING delta PARTITIONED BY (a) AS SELECT a FROM s"), ("hive", "LOAD DATA INPATH '/x/y' OVERWRITE INTO TABLE t PARTITION (ds = '1')"),
+    ("sparksql", "INSERT INTO t REPLACE WHERE a > 1 SELECT a FROM s"), ("sparksql", "CREATE TEMPORARY VIEW v USING parquet OPTIONS (path '/x/y')"),
+    ("hive", "INSERT OVERWRITE DIRECTORY '/tmp/o' ROW FORMAT DELIMITED FIELDS TERMINATED BY ',' SELECT a FROM s"), ("sparksql", "SELECT /*+ BROADCAST(s) */ t.a FROM t JOIN s ON t.k = s.k"),
+    ("sparksql", "SELECT a FROM s LATERAL VIEW explode(arr) e AS x"), ("sparksql", "SELECT * FROM s TABLESAMPLE (10 PERCENT)"), ("sparksql", "CREATE TABLE t LIKE s USING parquet"),
+    ("sparksql", "MERGE INTO t USING s ON t.k = s.k WHEN MATCHED THEN UPDATE SET * WHEN NOT MATCHED THEN INSERT *"), ("hive", "ALTER TABLE t ADD PARTITION (ds = '1') LOCATION '/x/y'"),
+    ("databricks", "COPY INTO t FROM (SELECT a FROM 's3://b/p') FILEFORMAT = PARQUET"), ("databricks", "CREATE OR REFRESH STREAMING TABLE t AS SELECT a FROM STREAM(s)"),
+    ("databricks", "OPTIMIZE t ZORDER BY (a)"), ("databricks", "CREATE TABLE t SHALLOW CLONE s"), ("databricks", "SELECT * FROM STREAM s"),
+    ("oracle", "INSERT ALL INTO t1 (a) VALUES (a) INTO t2 (a) VALUES (a) SELECT a FROM s"), ("oracle", "MERGE INTO t USING s ON (t.k = s.k) WHEN MATCHED THEN UPDATE SET t.a = s.a WHERE s.a > 1 DELETE WHERE t.a < 0"),
+    ("oracle", "CREATE TABLE t PARALLEL 4 NOLOGGING AS SELECT a FROM s"), ("oracle", "INSERT /*+ APPEND */ INTO t SELECT a FROM s"), ("oracle", "SELECT a FROM s START WITH a = 1 CONNECT BY PRIOR a = b"),
+    ("oracle", "SELECT a FROM s@dblink1"), ("oracle", "UPDATE (SELECT t.a, s.a AS sa FROM t JOIN s ON t.k = s.k) SET a = sa"),
+    ("redshift", "UNLOAD ('SELECT a FROM s') TO 's3://b/p' IAM_ROLE 'arn:aws:iam::1:role/r'"), ("redshift", "COPY t (a, b) FROM 's3://b/p' IAM_ROLE 'arn:aws:iam::1:role/r' CSV GZIP"),
+    ("redshift", "CREATE TABLE t DISTKEY (a) SORTKEY (b) AS SELECT a, b FROM s"), ("redshift", "CREATE TEMP TABLE t (LIKE s)"), ("redshift", "SELECT a INTO #t FROM s"),
+    ("redshift", "INSERT INTO t (SELECT a FROM s)"), ("redshift", "CREATE EXTERNAL TABLE sp.t (a int) STORED AS PARQUET LOCATION 's3://b/p'"),
+    ("clickhouse", "INSERT INTO t SELECT a FROM s FORMAT TabSeparated"), ("clickhouse", "CREATE MATERIALIZED VIEW mv TO t AS SELECT a FROM s"),
+    ("clickhouse", "INSERT INTO FUNCTION remote('h', db.t) SELECT a FROM s"), ("clickhouse", "CREATE TABLE t ENGINE = MergeTree ORDER BY a AS SELECT a FROM s"),
+    ("clickhouse", "SELECT a FROM s ARRAY JOIN arr AS x"), ("clickhouse", "SELECT a FROM s FINAL PREWHERE a > 1"), ("clickhouse", "INSERT INTO t SELECT * FROM file('x.csv')"),
+    ("duckdb", "CREATE OR REPLACE TABLE t AS FROM s SELECT a"), ("duckdb", "COPY (SELECT a FROM s) TO 'o.parquet' (FORMAT PARQUET)"), ("duckdb", "INSERT INTO t BY NAME SELECT a FROM s"),
+    ("duckdb", "CREATE TABLE t AS SELECT * FROM read_csv_auto('x.csv')"), ("duckdb", "INSERT OR REPLACE INTO t SELECT a FROM s"), ("duckdb", "SELECT * EXCLUDE (b) FROM s"),
+    ("duckdb", "FROM s"), ("duckdb", "COPY t FROM 'x.csv' (HEADER)"), ("duckdb", "SELECT * FROM 'x.parquet'"),
+    ("trino", "CREATE TABLE t WITH (format = 'ORC') AS SELECT a FROM s"), ("trino", "INSERT INTO t SELECT a FROM s CROSS JOIN UNNEST(arr) AS u (x)"),
+    ("athena", "UNLOAD (SELECT a FROM s) TO 's3://b/p' WITH (format = 'PARQUET')"), ("trino", "SELECT a FROM s FOR VERSION AS OF 123"), ("trino", "CREATE TABLE t (LIKE s INCLUDING PROPERTIES)"),
+    ("athena", "CREATE TABLE t WITH (external_location = 's3://b/p') AS SELECT a FROM s"), ("trino", "MERGE INTO t USING s ON t.k = s.k WHEN MATCHED THEN DELETE"),
+    ("teradata", "SEL a FROM s"), ("teradata", "INSERT INTO t SEL a FROM s QUALIFY row_number() OVER (ORDER BY a) = 1"), ("teradata", "CREATE VOLATILE TABLE t AS (SELECT a FROM s) WITH DATA ON COMMIT PRESERVE ROWS"),
+    ("teradata", "CREATE TABLE t AS s WITH NO DATA"), ("teradata", "UPDATE t FROM s SET a = s.a WHERE t.k = s.k"), ("teradata", "LOCKING ROW FOR ACCESS SELECT a FROM s"),
+    ("exasol", "IMPORT INTO t FROM CSV AT 'http://h/' FILE 'x.csv'"), ("exasol", "EXPORT (SELECT a FROM s) INTO CSV AT 'http://h/' FILE 'o.csv'"), ("exasol", "SELECT * FROM TABLE t"),
+    ("exasol", "SELECT a FROM table(generator()) v"), ("exasol", "MERGE INTO t USING s ON t.k = s.k WHEN MATCHED THEN UPDATE SET a = s.a WHERE s.a > 1"),
+    ("vertica", "COPY t FROM '/tmp/x.csv' DELIMITER ','"), ("vertica", "INSERT /*+ DIRECT */ INTO t SELECT a FROM s"), ("vertica", "CREATE TABLE t AS SELECT a FROM s SEGMENTED BY hash(a) ALL NODES"),
+    ("vertica", "SELECT swap_partitions_between_tables(a, b, c, d) FROM t"), ("vertica", "CREATE PROJECTION p AS SELECT a FROM s ORDER BY a"),
+    ("sqlite", "INSERT OR REPLACE INTO t SELECT a FROM s"), ("sqlite", "INSERT INTO t SELECT a FROM s WHERE true ON CONFLICT (a) DO NOTHING"), ("sqlite", "CREATE TABLE t AS SELECT a FROM s INDEXED BY i1"),
+    ("sqlite", "REPLACE INTO t (a) SELECT a FROM s"), ("sqlite", "CREATE TEMP TABLE t AS SELECT a FROM s"), ("sqlite", "UPDATE OR IGNORE t SET a = (SELECT a FROM s)"),
+    ("db2", "CREATE TABLE t AS (SELECT a FROM s) WITH DATA"), ("db2", "SELECT a FROM s FETCH FIRST 5 ROWS ONLY"), ("db2", "INSERT INTO t SELECT a FROM s WITH UR"), ("db2", "SELECT a FROM FINAL TABLE (INSERT INTO t SELECT a FROM s)"),
+    ("materialize", "CREATE MATERIALIZED VIEW mv AS SELECT a FROM s"), ("materialize", "CREATE SINK sk FROM mv INTO KAFKA CONNECTION kc (TOPIC 't')"), ("materialize", "CREATE SOURCE src FROM KAFKA CONNECTION kc (TOPIC 't') FORMAT JSON"),
+    ("starrocks", "INSERT OVERWRITE t SELECT a FROM s"), ("doris", "INSERT INTO t WITH LABEL l1 SELECT a FROM s"), ("starrocks", "CREATE TABLE t AS SELECT a FROM s"), ("impala", "INSERT INTO t PARTITION (ds = '1') SELECT a FROM s"),
+    ("impala", "UPSERT INTO t SELECT a FROM s"), ("impala", "COMPUTE STATS t"), ("impala", "CREATE TABLE t STORED AS PARQUET AS SELECT a FROM s"), ("greenplum", "CREATE TABLE t AS SELECT a FROM s DISTRIBUTED BY (a)"),
+    ("mariadb", "INSERT INTO t SELECT a FROM s RETURNING a"), ("soql", "SELECT Id, (SELECT Name FROM Contacts) FROM Account"), ("flink", "INSERT INTO t SELECT a FROM s /*+ OPTIONS('k'='v') */"),
+    ("flink", "CREATE TABLE t WITH ('connector' = 'kafka') AS SELECT a FROM s"), ("ansi", "INSERT INTO t DEFAULT VALUES"), ("ansi", "INSERT INTO t (a) VALUES ((SELECT max(a) FROM s))"),
+    ("ansi", "SELECT a FROM (s JOIN u ON s.k = u.k)"), ("ansi", "SELECT a FROM s NATURAL JOIN u"), ("ansi", "VALUES (1, 2), (3, 4)"), ("ansi", "TABLE s"), ("ansi", "SELECT"), ("ansi", "INSERT INTO t"),
+    ("ansi", "CREATE TABLE t AS"), ("ansi", "MERGE INTO t USING s ON t.k = s.k"), ("ansi", "UPDATE t SET"), ("ansi", "WITH q AS (SELECT 1) SELECT * FROM q, q q2"), ("ansi", "()"), ("ansi", "SELECT * FROM (((s)))"),
+]
 SILENT_DIALECTS = ["ansi", "postgres", "mysql", "sparksql", "snowflake", "tsql", "bigquery"]
 SUPPORTED_POOL = [
     "INSERT INTO t1 SELECT a, b FROM s1", "CREATE TABLE t2 AS SELECT x.a, y.b FROM s1 x JOIN s2 y ON x.k = y.k",
@@ -430,14 +517,19 @@ def replay(case):
 
 def run(ctx):
     s = _pool()
-    n = ctx.n(14000, 400000)
+    n = ctx.n(12000, 400000)
     res = runner.merge_all(runner.pmap(_mutate_worker, [(i, n // runner.NCPU, ctx) for i in range(runner.NCPU)]))
     # cross-dialect: corpus statements under foreign dialects (quick: seeded stride sample)
-    items = [(i, d) for i in range(len(s["pool"])) for d in s["dialects"] if d != s["pool"][i]["dialect"]]
+    items = [(i, d) for i in range(len(s["pool"]) - len(ZOO)) for d in s["dialects"] if d != s["pool"][i]["dialect"]]
     stride = 9 if ctx.quick else 1
     items = items[(ctx.seed % stride):: stride]
     chunks = runner.NCPU * 4
     res.merge(runner.merge_all(runner.pmap(_cross_worker, [(items[c::chunks], ctx) for c in range(chunks)])))
+    # the dialect-specific statement zoo under every dialect (and the legacy analyzer), every run
+    nzoo = len(ZOO)
+    first = len(s["pool"]) - nzoo
+    zitems = [(first + i, d) for i in range(nzoo) for d in s["dialects"]]
+    res.merge(runner.merge_all(runner.pmap(_cross_worker, [(zitems[c::chunks], ctx) for c in range(chunks)])))
     n2 = ctx.n(2400, 40000)
     res.merge(runner.merge_all(runner.pmap(_reject_worker, [(i, n2 // runner.NCPU, ctx) for i in range(runner.NCPU)])))
     n3 = ctx.n(640, 12000)
